@@ -68,6 +68,18 @@ def run_job_inproc(prop, job):
         prop.execute(script, w)
     except Violation as v:
         w.violation(v.oracle, v.observable, v.detail)
+    except (HarnessError, KeyboardInterrupt, MemoryError):
+        raise
+    except Exception as ex:  # noqa
+        # every generated workload is valid by construction (the unchanged tree raises nothing here): an exception that
+        # originates in library code and that no oracle anticipated is a violation of the property under test, not a harness error
+        tb = traceback.extract_tb(ex.__traceback__)
+        lib = [f for f in tb if "/strawberryfields/" in f.filename and "/verif/" not in f.filename]
+        if not lib or "/verif/" in tb[-1].filename:
+            raise
+        last = lib[-1]
+        w.violation("no-unexpected-exception", "%s in %s" % (type(ex).__name__, last.name),
+                    {"exc": type(ex).__name__, "msg": str(ex)[:300], "where": "%s:%d" % (last.filename, last.lineno)})
     res = w.result()
     res["job"] = {"seed": seed, "batch": job["batch"], "tier": job["tier"]}
     res["size"] = len(json.dumps(script))
